@@ -65,8 +65,10 @@ def _obj_pred(st):
     return out
 
 
-def replay_obj(case, Stream):
+def replay_obj(case, Stream, zero_at=None):
+    """zero_at = a lattice temperature value mapped to exactly 0.0 (A0 = -B * zero_at); None = the native offset 50.0."""
     hist = case["hist"]
+    A0 = 50.0 if zero_at is None else -B * zero_at
     ts, tt, q, d, h = hist[0][1]
     st = Stream("s", t_supply=A0 + B * ts, t_target=A0 + B * tt, heat_flow=C * q, dt_cont=B * d, htc=float(h))
     out = [(c, dict(dd, step=0)) for c, dd in _obj_pred(st)]
@@ -183,12 +185,12 @@ def check(prop, tier, run: Run, replay_case=None):
     run.register_matcher("kf_dead", kf_dead)
     if replay_case is not None:
         c = replay_case["case"]
-        out, _ = replay_obj(c, Stream) if "s" in c else replay_coll(c, Stream, StreamCollection)
+        out, _ = replay_obj(c, Stream, c.get("zero_at")) if "s" in c else replay_coll(c, Stream, StreamCollection)
         for clause, d in out:
             run.violation(clause, c, d)
         run.cov["evaluations"] = 1
         return
-    run.assumptions += ["stream attribute values on a small lattice (0.01 K unit so the code's latent-stream rule is an integer step); film coefficient > 0",
+    run.assumptions += ["stream attribute values on a small lattice (0.01 K unit so the code's latent-stream rule is an integer step), replayed at offset 50.0 and in a frame where one lattice temperature is exactly 0.0; film coefficient > 0",
                         "collection members: four objects with clashing names a, a, a_1, a_2"]
     nontriv = set()
     # ---- stream object
@@ -199,14 +201,20 @@ def check(prop, tier, run: Run, replay_case=None):
         run.machinery_errors.append(f"Leg M: spec/StreamObject.tla violates {res.violated}:\n{res.error_trace[:1500]}")
     else:
         run.cov["exhaustive"] = True
+        tvals = sorted(OBJ_CFG[name]["TVals"])
+        import random
+        rnd = random.Random(19 + seed())
         for case in res.cases:
-            out, drift = replay_obj(case, Stream)
-            run.cov["evaluations"] += 1
-            run.cov["traces_validated_against_impl"] += 1
-            for clause, d in out:
-                run.violation(clause, case, d)
-            if drift:
-                run.drift.append(drift)
+            # every behaviour twice: native offset, and a frame in which one lattice temperature is exactly 0.0
+            z = rnd.choice(tvals)
+            for zero_at in (None, z):
+                out, drift = replay_obj(case, Stream, zero_at)
+                run.cov["evaluations"] += 1
+                run.cov["traces_validated_against_impl"] += 1
+                for clause, d in out:
+                    run.violation(clause, dict(case, zero_at=zero_at), dict(d, zero_at=zero_at))
+                if drift:
+                    run.drift.append(drift)
             if len({h[0] for h in case["hist"]}) > 2:
                 nontriv.add(json.dumps(case["hist"]))
         run.cov["samples"] += [{"object": "Stream", "history": c["hist"]} for c in res.cases[:: max(1, len(res.cases) // 2)][:2]]
